@@ -38,7 +38,12 @@ MANIFEST = dict(
           "(Horner over series sums) equals the direct sum of t^i A cos(B + C t); longitude in [0, 360) and latitude in (-360, 360) for vsop_pos and after the "
           "FK5 / aberration / nutation corrections; size of the FK5 correction and of the aberration term; per planet, from the "
           "generated tables: Kepler's third law (0.1 % / 1 %), the series' mean-longitude rate equals the "
-          "orbital-element rate to 1e-6, and the un-reduced longitude series is strictly increasing on t in [-4, 2] "
+          "orbital-element rate to 1e-6, the t^2 constant of series L2 equals the T^2 coefficient of the elements to "
+          "5e-7 deg/cy^2 (Mercury, Venus, Earth, Uranus, Neptune), the constant of series R0 equals a (1 + e^2/2) of the "
+          "mean elements to 1e-5 .. 2e-3 a (partial form of the radius clause), orbital_elements reads the documented "
+          "rows of the two tables, the derivative of the longitude series stays within "
+          "a proved fraction of the mean motion on |t| <= 4 (2.2 % Venus ... 64 % Mercury: partial form of the "
+          "daily-rate clause), and the un-reduced longitude series is strictly increasing on t in [-4, 2] "
           "millennia (triangle-inequality bound on the derivative, sums of |A| and |A C| re-computed by the kernel). "
           "PARTIAL: the latitude / radius / daily-rate windows and the agreement with Kepler motion from the mean "
           "elements are numerical facts about ~32 000 coefficients that no theorem here carries; they are covered "
